@@ -1,7 +1,7 @@
 from vlib.flow import Prop
 from vlib import core
 from .common import BASE_TRUST
-from . import gen
+from . import gen, acc2
 
 
 def py_count(b):
@@ -15,12 +15,19 @@ def py_count(b):
 class C16(Prop):
     id = 'C16'
     module = 'Cbor.Props.C16'
-    extra_modules = ['Cbor.Lemmas.TextContent']
-    theorems = ['Props.C16.C16_never_rejects', 'Props.C16.C16_never_rejects_chunked', 'Props.C16.C16_count', 'Props.C16.C16_safe', 'Props.C16.count_le_length', 'Lemmas.Utf8.tableOk_true',
+    extra_modules = ['Cbor.Lemmas.TextContent', 'Cbor.Props.HandleSetters']    # HandleSetters: the generated cbor_string_set_handle / cbor_bytestring_set_handle
+    HANDLE_THEOREMS = ['string_set_handle_fields', 'string_set_handle_length', 'string_set_handle_data', 'bytestring_set_handle_eq',
+                       'bytestring_set_handle_length', 'count_indep', 'string_set_handle_count', 'string_set_handle_count_indep',
+                       'string_set_handle_count_spec', 'string_set_handle_count_spec\'', 'string_set_handle_count_le', 'bytestring_set_handle_ok',
+                       'string_set_handle_ok_imp', 'string_set_handle_ok']
+    theorems = ['Props.HandleSetters.' + t for t in HANDLE_THEOREMS] + ['Props.C16.C16_never_rejects', 'Props.C16.C16_never_rejects_chunked', 'Props.C16.C16_count', 'Props.C16.C16_safe', 'Props.C16.count_le_length', 'Lemmas.Utf8.tableOk_true',
                 'Lemmas.Utf8.refLoop_run', 'Lemmas.Utf8.count_eq_ref', 'Lemmas.Utf8.runD_count', 'Lemmas.Utf8.charRest_eq']
     trusted_base = BASE_TRUST + [
         'C16: Spec.Utf8 is a transcription of the RFC 3629 section 4 ABNF; it is cross-checked on every run against CPython\'s strict UTF-8 decoder',
-        'C16: that cbor_string_set_handle / the builder store length and bytes unchanged and store 0 for invalid text is part of the item model (C02/C03 correspondence), not of these theorems']
+        'C16: that cbor_string_set_handle / the builder store length and bytes unchanged and store 0 for invalid text is part of the item model (C02/C03 correspondence), not of these theorems',
+        'Props.HandleSetters: the generated cbor_string_set_handle takes the buffer as the byte sequence the pointer points to and makes it ItemRec.data; exact as long as the buffer '
+        'does not overlap the item header itself (the parameter is restrict-qualified; the contract is a separate malloc block) and nothing is stored through either name afterwards '
+        '(the translator refuses such stores); the ACC lines hand the real function a buffer from the installed allocator and observe it under ASan in a forked child']
     rule = ('every byte sequence of length 0..3 (4 in thorough for non-ASCII leads) by block digests on all three sides (C, generated Lean, Spec), '
             'plus explicit cases: valid scalars of every length class with single injected faults at every position, long ASCII runs inside '
             'unfinished sequences; the explicit cases and word-sized ASCII prefixes followed by valid / invalid tails also through every entry point that attaches bytes to a definite text string (cbor_build_stringn, cbor_build_string, cbor_string_set_handle, cbor_load, cbor_copy): count, byte length, content preserved; non-trivial = contains a byte >= 0x80; distinct by (bytes, result)')
@@ -55,10 +62,11 @@ class C16(Prop):
         return out
 
     def corr_lines(self, tier, rng):
-        return ['UTF8 ' + gen.hexs(b) for b in self.explicit(tier, rng)]
+        return ['UTF8 ' + gen.hexs(b) for b in self.explicit(tier, rng)] + acc2.handle_lines(tier, rng)
 
     def nontrivial(self, line, out):
         w = line.split()
+        if w[0] == 'ACC': return True
         return w[0] == 'UTF8ALL' or any(c in '89abcdef' for c in w[1][::2])
 
     def blocks(self, tier):
@@ -127,6 +135,9 @@ class C16(Prop):
                     fails.append({'input': l, 'expected': '%s=%s (count/length/bytes preserved)' % (k, want), 'observed': co,
                                   'why': 'code point count, length or content wrong through entry point ' + k})
                     break
+        # (4) the handle setters called directly on a laid-out item (ACC), against CPython's decoder
+        fails += acc2.oracle(ctx, acc2.handle_lines(tier, core.Rng('C16-acc')), acc2.handle_expect,
+                             'cbor_string_set_handle / cbor_bytestring_set_handle does not store length, bytes and the RFC 3629 count (0 for invalid text), or its assertions differ')
         return [f for f in fails if f][:20]
 
     def bisect(self, ctx, block, refname, refexe):
